@@ -119,6 +119,8 @@ def run(run: core.Run) -> int:
                 Cfg(flat=True, reader_shaped=True, max_stmts=5, max_routines=2), Cfg(flat=True, reader_shaped=True, max_stmts=3, max_routines=3, coro=True)]
         sets = dc.routine_sets_from_programs(run, pool, n, cfgs)
         sets = c02.wf_filter(sets, drv, jobs)
+        for i, s_ in enumerate(sets):
+            s_["twice"] = i % 6 == 5     # every sixth set: the answer of a second convert() of the same decompiler object
         results = dc.pipeline_all(pool, sets, timeout=40, single_timeout=12)
     finally:
         pool.close()
